@@ -292,6 +292,8 @@ def run(ck: Checker, prog: Program, tier: str):
     ck.extra["worker_effects"] = [describe_effect(e) for e in s.effects][:30]
     ck.extra["calls_resolved"] = eng.calls_resolved
     ck.extra["externals_assumed_pure"] = dict(eng.assumed_pure)
+    from .common import check_identity_comparisons as _cic
+    ck.guard(_cic, ck, prog, "C19.R1", "C19")
 
 
 #: keyword arguments of click.Path that only validate the string (it reaches the worker as typed by the user)
